@@ -654,12 +654,13 @@ def prepare_real(ctx, case):
     except Exception as e:                  # noqa: BLE001
         extra.append(f"TDVP constructor raised {type(e).__name__}: {str(e)[:80]}")
     events = observe_events(ttns, ttno)
+    bugenv = observe_bugenv(ttns, ttno)
     tree = model_tree_tokens(root, nodes)
     qs = " ".join("q " + " ".join(q) for q in queries)
-    return {"kind": "real", "events": events, "root": root, "nodes": nodes, "adj": adj, "queries": queries, "answers": answers,
+    return {"kind": "real", "events": events, "bugenv": bugenv, "root": root, "nodes": nodes, "adj": adj, "queries": queries, "answers": answers,
             "extra": extra, "tdvp": tdvp, "n": n,
             "lines": [f"C17 flat tree {tree} {qs}", f"C17 struct tree {tree} {qs}",
-                      f"C17 struct tree {tree} q events first q events second q events twosite"]}
+                      f"C17 struct tree {tree} q events first q events second q events twosite q bugenv"]}
 
 
 EVENT_KINDS = (("tdvp1", "first"), ("tdvp2", "second"), ("tdvp2site", "twosite"))
@@ -709,13 +710,134 @@ def observe_events(ttns, ttno):
     return out
 
 
+def parse_bugenv(out: str):
+    """model answer of `bugenv` -> set of (kind, node(s), sorted reads with generation)"""
+    evs = set()
+    for ev in out[3:].split(" ; "):
+        tk = ev.split()
+        if not tk or tk[0] == "init":
+            continue
+        rds = tuple(sorted((int(r.split(">")[0]), int(r.split(">")[1].split(":")[0]), r.split(":")[1])
+                           for r in tk[2:]))
+        if tk[0] == "evolve":
+            evs.add(("evolve", int(tk[1]), rds))
+        elif tk[0] == "descend":
+            a, b = tk[1].split(">")
+            evs.add(("descend", int(a), int(b), rds))
+        elif tk[0] == "build" and rds:         # leaves use contract_leaf: nothing is read
+            evs.add(("build", int(tk[1].split(">")[0]), rds))
+    return evs
+
+
+def observe_bugenv(ttns, ttno):
+    """One step of BUG and FixedBUG with every cached block tagged by the generation of tensors it was
+    built from (`old`: `init_cache_but_one` / `update_tree_cache` inside `update_node`; `new`: the block
+    returned by `update_node`) and every `get_entry` during a local evolution, a rebuild on the way down
+    and `contract_any` recorded.  Returns {class: set of events} in the format of `parse_bugenv`."""
+    import sys as _sys
+    from harness import algos
+    from pytreenet.time_evolution.bug import BUG  # noqa: F401  (loads the module below)
+    from pytreenet.contractions.sandwich_caching import SandwichCache
+    from pytreenet.contractions.tree_cach_dict import PartialTreeCachDict
+    cb = _sys.modules["pytreenet.time_evolution.time_evo_util.common_bug"]
+    tags, log, cur, in_init = {}, [], [None], [False]
+    saved = (PartialTreeCachDict.get_entry, SandwichCache.__dict__["init_cache_but_one"],
+             SandwichCache.update_tree_cache, cb.single_site_time_evolution, cb.update_node, cb.contract_any)
+    orig_get, orig_init_cm, orig_utc, orig_ss, orig_un, orig_ca = saved
+    orig_init = orig_init_cm.__func__
+
+    def get_entry(self, a, b):
+        val = orig_get(self, a, b)
+        if cur[0] is not None:
+            cur[0].append((lab(a), lab(b), tags.get(id(val), "missing")))
+        return val
+
+    def init(cls, state, ham, lo):
+        in_init[0] = True
+        try:
+            cache = orig_init(cls, state, ham, lo)
+        finally:
+            in_init[0] = False
+        for v in cache.values():
+            tags[id(v)] = "old"
+        return cache
+
+    def utc(self, a, b):
+        rd, prev = [], cur[0]
+        cur[0] = rd
+        try:
+            orig_utc(self, a, b)
+        finally:
+            cur[0] = prev
+        tags[id(self[(a, b)])] = "old"
+        if not in_init[0]:
+            log.append(("descend", lab(a), lab(b), tuple(sorted(rd))))
+
+    def ss(node_id, state, ham, dt, cache, **kw):
+        rd = []
+        cur[0] = rd
+        try:
+            return orig_ss(node_id, state, ham, dt, cache, **kw)
+        finally:
+            cur[0] = None
+            log.append(("evolve", lab(node_id), tuple(sorted(rd))))
+
+    def un(node_id, *a, **kw):
+        res = orig_un(node_id, *a, **kw)
+        tags[id(res[1])] = "new"
+        return res
+
+    def ca(node_id, next_id, state, ham, cache):
+        rd, prev = [], cur[0]
+        cur[0] = rd
+        try:
+            return orig_ca(node_id, next_id, state, ham, cache)
+        finally:
+            cur[0] = prev
+            log.append(("build", lab(node_id), tuple(sorted(rd))))
+
+    out = {}
+    try:
+        PartialTreeCachDict.get_entry = get_entry
+        SandwichCache.init_cache_but_one = classmethod(init)
+        SandwichCache.update_tree_cache = utc
+        cb.single_site_time_evolution = ss
+        cb.update_node = un
+        cb.contract_any = ca
+        for kind in ("bug", "fixedbug"):
+            log.clear()
+            tags.clear()
+            try:
+                algo = algos.make_algo(kind, ttns, ttno, 0.01, 0.01, [])
+                algo.run_one_time_step()
+                out[kind] = set(log)
+            except Exception as e:          # noqa: BLE001
+                out[kind] = f"raised {type(e).__name__}: {str(e)[:60]}"
+    finally:
+        PartialTreeCachDict.get_entry = orig_get
+        SandwichCache.init_cache_but_one = orig_init_cm
+        SandwichCache.update_tree_cache = orig_utc
+        cb.single_site_time_evolution = orig_ss
+        cb.update_node = orig_un
+        cb.contract_any = orig_ca
+    return out
+
+
 def finish_real(ctx, case, p, outs):
     queries, answers = p["queries"], p["answers"]
     ctx.count(("real", case["seed"], case["n"]), nontrivial=p["n"] >= 3, corr=True)
     ctx.tally("nodes", f"real-{p['n']}")
     probs = list(p["extra"])
     ev_model = outs[2].split(" | ")
-    for (_, which), m in zip(EVENT_KINDS, ev_model):
+    bug_model = parse_bugenv(ev_model[3])
+    for kind, obs in p["bugenv"].items():
+        if isinstance(obs, str):
+            # rank-adaptive BUG is known to raise on some bond configurations (F-C09, property C09)
+            ctx.tally("bugenv_skipped", kind)
+        elif obs != bug_model:
+            ctx.corr_fail(case, f"{kind}: environment reads differ from the model: only impl "
+                                f"{sorted(obs - bug_model)[:3]} only model {sorted(bug_model - obs)[:3]}")
+    for (_, which), m in zip(EVENT_KINDS, ev_model[:3]):
         obs = p["events"][which]
         if obs.split(" (")[0] != m:
             ctx.corr_fail(case, f"events of one {which} time step: impl '{obs[:160]}' model '{m[:160]}'")
